@@ -3,7 +3,7 @@ import os, json, re, shutil
 from vlib import *
 import conc
 
-OPS = ("call", "rlock", "runlock", "sync", "getdef", "create", "setthr", "setcpu", "cpu", "free", "barrier", "pause", "resume")
+OPS = ("call", "rlock", "runlock", "sync", "getdef", "create", "setthr", "setcpu", "cpu", "free", "barrier", "pause", "resume", "createall", "freeall", "offline", "online")
 
 
 def norm_op(o):
@@ -46,6 +46,8 @@ def consts(sc):
 
 def program(sc):
     out = []
+    if any(o["op"] in ("createall", "freeall") for ops in sc["threads"].values() for o in ops):
+        out.append("ncpu %d" % sc.get("ncpu", 2))      # the possible-CPU array length seen by the library = the model's NCpu
     for n, m in sc.get("re", {}).items():
         out.append("re %s %s" % (n, m))
     for t, ops in sc["threads"].items():
